@@ -136,7 +136,12 @@ def _propagate_locals(fn):
             if n.get("kind") == "VarDecl" and n.get("storageClass") != "static":
                 decls[n["id"]] = n
         writes, stores, defs = {}, set(), {}
+        wofs = {}            # variable id -> offsets of its writes
         parents = {}
+
+        def _off(n_):
+            b_ = (n_.get("range") or {}).get("begin") or {}
+            return b_.get("offset", (b_.get("expansionLoc") or {}).get("offset", (b_.get("spellingLoc") or {}).get("offset", -1)))
         for n in _jwalk(body):
             for c in n.get("inner") or []:
                 if isinstance(c, dict):
@@ -148,6 +153,7 @@ def _propagate_locals(fn):
                 if lhs.get("kind") == "DeclRefExpr":
                     vid = lhs["referencedDecl"]["id"]
                     writes[vid] = writes.get(vid, 0) + 1
+                    wofs.setdefault(vid, []).append(_off(n))
                     if k == "BinaryOperator" and n.get("opcode") == "=":
                         defs.setdefault(vid, []).append(n)
                     else:
@@ -165,7 +171,9 @@ def _propagate_locals(fn):
             elif k == "UnaryOperator" and n.get("opcode") == "&":
                 t = _strip_j(n["inner"][0])
                 if t.get("kind") == "DeclRefExpr":
-                    writes[t["referencedDecl"]["id"]] = writes.get(t["referencedDecl"]["id"], 0) + 5      # address taken
+                    # address taken (out-parameter of a call, e.g. PyArg_ParseTuple(.., &arr)): one write, at that point
+                    writes[t["referencedDecl"]["id"]] = writes.get(t["referencedDecl"]["id"], 0) + 1
+                    wofs.setdefault(t["referencedDecl"]["id"], []).append(_off(n))
         for vid, d in decls.items():
             if len(d.get("inner") or []) >= 1 and d.get("init"):
                 writes[vid] = writes.get(vid, 0) + 1
@@ -219,8 +227,11 @@ def _propagate_locals(fn):
                     elif writes.get(rid, 0) > (1 if rid in decls else 0):
                         ok = False          # operand assigned more than once / modified: not provably stable
                     elif rid in decls and writes.get(rid, 0) == 1 and not decls[rid].get("init"):
-                        # single later assignment: only safe when it is a propagated candidate itself (handled in a later round)
-                        ok = False
+                        # a single write is fine when it lies before the definition in the source (and outside any loop that does
+                        # not also contain the definition: checked through the offsets of straight-line wrapper code only)
+                        wo = wofs.get(rid, [])
+                        if not wo or min(wo) < 0 or max(wo) >= _off(stmt) or loopvars_enclosing(stmt):
+                            ok = False
                 elif k == "ArraySubscriptExpr":
                     b = _strip_j(x["inner"][0])
                     while b.get("kind") in ("BinaryOperator",) and b.get("inner"):
